@@ -1,6 +1,6 @@
 ENTRY = {
     "level": "proof",
-    "families": [fam("C45", 160, 6000, env={"RAYON_NUM_THREADS": "4", "TOKIO_WORKER_THREADS": "4"})],
+    "families": [fam("C45", 160, 1600, env={"RAYON_NUM_THREADS": "4", "TOKIO_WORKER_THREADS": "4"})],
     "gen_items": [],
     "rule": "one case = one sqlgen statement that plan_distributed REFUSES (so execute_any_distributed takes the gather path), strata rotating over join / subquery / cte / setop / "
             "distinct / sort_limit / agg (derived tables projecting unused columns, self-joins, IN / EXISTS / scalar subqueries, chained and unreferenced CTEs, UNION / INTERSECT / EXCEPT), "
